@@ -39,6 +39,15 @@ func VerifC07() {
 		return // outside the property's premise
 	}
 	idx := verifNewIndex(dim, cfg)
+	switch verifrt.Bound("defaults", 0) {
+	case 1:
+		// the upper-layer budget is configured (smaller than M), the layer-0 budget is left
+		// to its default: the premise "at most 2M+1 items" speaks of that default
+		idx = verifNewIndexWith(dim, cfg, HnswM(M), HnswMmax(M-1))
+	case 2:
+		// only M is configured
+		idx = verifNewIndexWith(dim, cfg, HnswM(M))
+	}
 	ref := &verifRef{}
 	for i := 0; i < n; i++ {
 		vec := verifVector("vec", dim, grid)
